@@ -234,10 +234,12 @@ theorem cost_below_limit_partial (h : generate cfg now prevDate prior pool bi wa
 
 /-- **generated_block_verifies_partial** (the whole `VerifyBlock` pipeline of the model: duplicate test, time
 tolerance, duplicated built-in names, cost test, re-execution, state and status comparison). Full statement — "every
-generated block verifies" — is false (`maxint_estimate_fails_verification`).
-It holds under the hypothesis the negation witness violates: the cost estimates are moderate (see `cost_below_limit_partial`). -/
+generated block verifies" — is false (`maxint_estimate_fails_verification`, `self_send_zero_value_fails_verification`).
+It holds under the hypotheses the negation witnesses violate: no transaction of the block is addressed to its own
+sender (`self_send_zero_value_fails_verification`), and the cost estimates are moderate (see `cost_below_limit_partial`). -/
 theorem generated_block_verifies_partial (h : generate cfg now prevDate prior pool bi waitOver fuel = .ok g)
     (htol : 0 ≤ cfg.tol)
+    (hself : ∀ e ∈ (blockOf (blockDate now prevDate) g).txns, e.p.txn.sender ≠ e.p.txn.to)
     (hmax : cfg.maxBlockCost < two62)
     (hsmall : ∀ e ∈ (blockOf (blockDate now prevDate) g).txns, fromPool e → small e)
     (hb0 : ∀ b ∈ bi.list, 0 ≤ b.2.cost.getD 0) (hbs : bsum bi.list ≤ cfg.maxBlockCost) :
@@ -260,8 +262,11 @@ theorem generated_block_verifies_partial (h : generate cfg now prevDate prior po
     rw [List.any_eq_false]
     intro e hm; have := (hgood e hm).1; simpa [blockOf] using this
   have hcost := blockCost_eq (blockOf (blockDate now prevDate) g).txns (fun e hm => (hgood e hm).2)
+  have hselfb : (blockOf (blockDate now prevDate) g).txns.any (fun e => decide (e.p.txn.sender = e.p.txn.to)) = false := by
+    rw [List.any_eq_false]
+    intro e hm; simpa using hself e hm
   unfold verify
-  rw [hasDup_false_of_nodup _ hdup, hlate, hasDup_false_of_nodup _ hnames, hcost, hre]
+  rw [hasDup_false_of_nodup _ hdup, hlate, hselfb, hasDup_false_of_nodup _ hnames, hcost, hre]
   have hw : wrap64 (costSum (blockOf (blockDate now prevDate) g).txns) = costSum (blockOf (blockDate now prevDate) g).txns := by
     rw [wrap64_id] <;> (unfold two62 at hmax; omega)
   have hng : ¬ (wrap64 (costSum (blockOf (blockDate now prevDate) g).txns) > cfg.maxBlockCost) := by rw [hw]; omega
@@ -326,7 +331,7 @@ theorem not_current_rejected (feeOn : Bool) (tol date : Int) (s : St) (p : PTxn)
 def exCfg (fee : Bool) (maxCost : Int) : Cfg := ⟨fee, maxCost, 1638400, 1, 0, 3, 600⟩
 def exPrior : St := { accts := [(3, ⟨5000000000000, 0⟩), (5, ⟨5000000000000, 0⟩), (6, ⟨5000000000000, 3⟩)], store := [] }
 def exTxn (key : Nat) (typ : TxnType) (sender : Id) (fee : Nat) (nonce : Int) (cost : Int) (bn : Option BuiltinKind) : PTxn :=
-  { key := key, txn := { sender := sender, to := 6, toValid := true, value := 0, fee := fee, nonce := nonce, typ := typ },
+  { key := key, txn := { sender := sender, to := 9, toValid := true, value := 0, fee := fee, nonce := nonce, typ := typ },
     res := fun _ => CResult.ok [] [] [], outLen := fun _ => 4, cost := some cost, estFee := 0, exempt := false, bytes := 50,
     created := 0, bname := bn }
 def exPayFees (res : CResult) : Builtins :=
@@ -368,15 +373,15 @@ def hypsHold (cfg : Cfg) (bi : Builtins) (r : Except GenErr GS) : Bool :=
     g.incl.all (fun e => match e.key with
       | .pool _ => (match e.p.cost with | some c => decide (0 ≤ c) && decide (c < two62) | none => false)
       | .builtin _ => true)
-    && decide (0 ≤ cfg.tol) && decide (cfg.maxBlockCost < two62) && bi.list.all (fun b => decide (0 ≤ b.2.cost.getD 0)) && decide (bsum bi.list ≤ cfg.maxBlockCost)
+    && g.incl.all (fun e => decide (e.p.txn.sender ≠ e.p.txn.to)) && decide (0 ≤ cfg.tol) && decide (cfg.maxBlockCost < two62) && bi.list.all (fun b => decide (0 ≤ b.2.cost.getD 0)) && decide (bsum bi.list ≤ cfg.maxBlockCost)
   | .error _ => false
 
 theorem hypsHold_sound (cfg : Cfg) (date : Int) (bi : Builtins) (g : GS) (h : hypsHold cfg bi (.ok g) = true) :
-    0 ≤ cfg.tol ∧ cfg.maxBlockCost < two62 ∧
+    (∀ e ∈ (blockOf date g).txns, e.p.txn.sender ≠ e.p.txn.to) ∧ 0 ≤ cfg.tol ∧ cfg.maxBlockCost < two62 ∧
     (∀ e ∈ (blockOf date g).txns, fromPool e → small e) ∧ (∀ b ∈ bi.list, 0 ≤ b.2.cost.getD 0) ∧ bsum bi.list ≤ cfg.maxBlockCost := by
   simp only [hypsHold, Bool.and_eq_true, List.all_eq_true, decide_eq_true_eq] at h
-  obtain ⟨⟨⟨⟨h1, h0⟩, h2⟩, h3⟩, h4⟩ := h
-  refine ⟨h0, h2, ?_, h3, h4⟩
+  obtain ⟨⟨⟨⟨⟨h1, hs⟩, h0⟩, h2⟩, h3⟩, h4⟩ := h
+  refine ⟨fun e he => by simpa using hs e he, h0, h2, ?_, h3, h4⟩
   intro e he ⟨n, hn⟩
   have := h1 e he
   rw [hn] at this
@@ -407,6 +412,23 @@ theorem builtin_named_pool_txn_block_rejected :
         ⟨0, [⟨Key.pool 1, exTxn 1 .sc 6 0 4 100 (some .payFees), .success⟩,
              ⟨Key.builtin .payFees, { (exTxn 0 .sc 3 0 1 100 (some .payFees)) with res := fun _ => CResult.ok [] [] [] }, .success⟩], exPrior⟩ with
       | .ok _ => none | .error e => some e) = some VErr.txn := by decide
+
+/-- NEGATION WITNESS (finding `C45:self-addressed-transaction-included-but-rejected-by-verifier`): client 5 sends value 0
+to itself (fees off, fee 0). The engine skips a zero amount before it compares source and destination, so the state
+update succeeds and the generator includes the transaction; the verifier refuses a transaction whose recipient is its
+sender. The same with a fee (fees on) and for a `data` transaction; a self-send of a positive value is rejected by the
+engine and stays out. -/
+def exSelf (typ : TxnType) (value fee : Nat) : PTxn :=
+  { (exTxn 0 typ 5 fee 1 10 none) with txn := { sender := 5, to := 5, toValid := true, value := value, fee := fee, nonce := 1, typ := typ } }
+theorem self_send_zero_value_fails_verification :
+    keysOf (generate (exCfg false 10000) 0 0 exPrior [exSelf .send 0 0] ⟨none, none, none, none⟩ true 20) = [Key.pool 0] ∧
+    verdict (exCfg false 10000) 0 exPrior (generate (exCfg false 10000) 0 0 exPrior [exSelf .send 0 0] ⟨none, none, none, none⟩ true 20) =
+      some (some .txn) ∧
+    verdict (exCfg true 10000) 0 exPrior (generate (exCfg true 10000) 0 0 exPrior [exSelf .send 0 100000000] (exPayFees (.ok [] [] [])) true 20) =
+      some (some .txn) ∧
+    verdict (exCfg false 10000) 0 exPrior (generate (exCfg false 10000) 0 0 exPrior [exSelf .data 0 0] ⟨none, none, none, none⟩ true 20) =
+      some (some .txn) ∧
+    keysOf (generate (exCfg false 10000) 0 0 exPrior [exSelf .send 7 0] ⟨none, none, none, none⟩ true 20) = [] := by decide
 
 /-- NEGATION WITNESS (finding `C45:cost-limit-bypassed-by-maxint-estimate`): the first transaction calls a function
 without a cost entry (estimate `MaxInt`); 100 + MaxInt wraps negative, it is included, and three transactions of cost
